@@ -168,7 +168,7 @@ def execute_and_judge(jobs, workdir, flavours=("slack", "noslack")):
 
 
 def fmt_str(fmt):
-    return "".join(chr(c) if 32 <= c < 127 else "\\x%02x" % c for c in fmt)
+    return "".join(chr(c) if 32 <= c < 127 else ("<%d blanks>" % (c - 100000)) if c >= 100000 else "\\x%02x" % c for c in fmt)
 
 
 def describe(b):
@@ -297,16 +297,35 @@ def run_c09(prop, tier, seed, workdir):
     for c in scases:
         for fn in SCAN_NARROW + SCAN_WIDE:
             jobs.append((fn, c))
+    # the n conversion far into the format: a run of 4095 / 4096 / 5000 blanks in front (literal text for printf, a white-space directive
+    # for scanf: the conversion is reached either way), so that a scanner that stops at RSIZE_MAX_STR or at a buffer size is seen
+    longn = 0
+    for c in rnd.sample([c for c in pcases if c.get("cv") == 110 and c.get("shape") != 5], 24 if tier == "quick" else 200):
+        for pad in (4096, 5000):
+            c2 = dict(c)
+            c2["dmax"] = 64
+            c2["fmt"] = [100000 + pad] + list(c["fmt"])
+            for fn in pf:
+                jobs.append((fn, c2))
+                longn += 1
+    for c in [c for c in scases if c.get("hasn")]:
+        for pad in (4095, 4096, 5000):
+            c2 = dict(c)
+            c2["fmt"] = [100000 + pad] + list(c["fmt"])
+            for fn in SCAN_NARROW + SCAN_WIDE:
+                jobs.append((fn, c2))
+                longn += 1
     n, bad, st = execute_and_judge(jobs, workdir, flavours=("slack",))
     _violations(prop, bad, res)
     res.coverage = dict(
-        states=r["distinct"], transitions=r["states"], traces_validated_against_impl=n, evaluations=n,
+        states=r["distinct"], transitions=r["states"], traces_validated_against_impl=n, evaluations=n, calls_with_the_n_conversion_behind_4096_characters=longn,
         distinct_nontrivial=len({tuple(c["fmt"]) for c in cases if 110 in c["fmt"]}),
         rule="TLC enumerates printf formats built around an n directive with every flag set, width (none, number, '*'), precision and length "
              "modifier (hh h l ll j z t), alone, between literals, behind an escaped %%, in front of another directive, and as escaped text "
              "(%%5ln: no conversion), plus scanf formats (pre-piece x n-directive variants incl. %*n, %%n, literal n x post-piece) with input "
              "synthesised so every directive is reached, and checks that the contract's grammar-accurate parser finds an n conversion iff one "
              "was built in (NConvIffBuilt); every format runs through all 16 printf and 12 scanf entry points with sentinel targets; "
+             "formats with an n conversion are repeated behind a run of 4095 / 4096 / 5000 blanks (the conversion beyond RSIZE_MAX_STR characters); "
              "TracePrintf.tla requires: sentinel untouched, the call rejected with one EINVAL report, and no rejection on account of a literal n. "
              "non-trivial = distinct formats containing the letter n",
         samples=[dict(fn=j[0], fmt=fmt_str(j[1]["fmt"])) for j in rnd.sample(jobs, 5)],
